@@ -12,7 +12,26 @@ import inspect
 import numpy as np
 
 
-def model(name, classes=(0, 1), seed=0):
+def label_name(c):
+    """String form of a numeric class label; lexicographic order == numeric order (values 0..99)."""
+    return f"c{int(c):02d}"
+
+
+def model(name, classes=(0, 1), seed=0, str_labels=False):
+    """``str_labels``: the caller names the classes with strings and marks a missing label with None."""
+    m = _model(name, classes, seed)
+    if str_labels:
+        names = [label_name(c) for c in classes]
+        for est in m if isinstance(m, list) else [m]:
+            ps = est.get_params(deep=False)
+            if "classes" in ps:
+                est.set_params(classes=list(names))
+            if "missing_label" in ps:
+                est.set_params(missing_label=None)
+    return m
+
+
+def _model(name, classes=(0, 1), seed=0):
     from sklearn.ensemble import RandomForestClassifier, RandomForestRegressor
     from sklearn.gaussian_process import GaussianProcessRegressor
     from sklearn.linear_model import LinearRegression, LogisticRegression
